@@ -33,6 +33,7 @@ import (
 	"path/filepath"
 	"sort"
 	"strconv"
+	"strings"
 	"sync"
 
 	"github.com/Dash-Industry-Forum/livesim2/cmd/livesim2/app"
@@ -74,6 +75,17 @@ func (rc *recorder) add(inst, phase string, it item, r srv.Resp) {
 	}
 	m[r.Status]++
 	rc.mu.Unlock()
+}
+
+// gap200 counts the 200 responses of the cache-loaded instance for the gap asset (per kind).
+func (rc *recorder) gap200() map[string]int {
+	res := map[string]int{}
+	for _, r := range rc.recs {
+		if r.Aux == nil && r.Inst == "cached" && r.St == 200 && strings.Contains(r.Key, "/"+gapAsset+"/") {
+			res[r.Kind]++
+		}
+	}
+	return res
 }
 
 func (rc *recorder) merge(o *recorder) {
@@ -217,6 +229,9 @@ func Main(args []string) error {
 			return err
 		}
 		env.S.Cancel()
+		if err := addGapAsset(root); err != nil {
+			return err
+		}
 		tr.PrintStats(map[string]any{"scenarios": 0, "events": 0, "distinct": 0, "samples": []any{}, "vod": root, "assets": len(env.Assets)})
 		return nil
 	case "main":
@@ -309,6 +324,11 @@ func runMain(root, work, out string, seed int64, thorough bool, n int) error {
 	if nRepFiles == 0 {
 		return fmt.Errorf("the writer instance wrote no representation metadata below %s", repDir)
 	}
+	// metadata files that parse but are refused by the loading instance (gap asset, stale edits): see repdata.go
+	gapFiles, staleFiles, err := prepareRefusedFiles(repDir, rng)
+	if err != nil {
+		return err
+	}
 	ca, err := newInst(root, false, repDir, false)
 	if err != nil {
 		return err
@@ -348,7 +368,8 @@ func runMain(root, work, out string, seed int64, thorough bool, n int) error {
 		"scenarios": 7 + nFresh, "events": events, "responses": nresp, "distinct": len(perKey), "keys_in_4_or_more_instance_phases": multi,
 		"pool": len(pool), "pool_by_kind": ps.ByKind, "groups": ps.Groups, "groups_by_config_class": ps.ByTag, "assets": ps.Assets,
 		"discovery_requests": ps.Disc, "mpd_refused_at_discovery": ps.DiscFail, "status_by_kind": statusTable(rc),
-		"rep_metadata_files": nRepFiles, "fresh_instances": nFresh, "samples": samples,
+		"rep_metadata_files": nRepFiles, "refused_gap_files": gapFiles, "refused_stale_files": staleFiles,
+		"gap_asset_200": rc.gap200(), "fresh_instances": nFresh, "samples": samples,
 	})
 	return nil
 }
